@@ -27,6 +27,15 @@ PROPS["C04"] = {
     "assumptions": ["every MinimumVersion has major 1 (R1)"],
 }
 
+ADM_NOTE = "Trusted: Coq kernel; Model/Admission.v + Model/Namespace.v as model of admission/admission.go and response.go (correspondence compares allow bit, code, reason, message, warnings, audit annotations, shared-object identity and the full effect trace of dependency/evaluator/metrics calls); apimachinery status construction beyond code/reason/causes and klog are not modelled; the evaluator is a parameter (real registry and a marker evaluator, both answered from a table of direct calls). No axioms."
+
+def adm_prop(stream, nq, nt, text, extra_streams=None, partial="", assumptions=None):
+    d = {"streams": [{"name": stream, "n_quick": nq, "n_thorough": nt}] + (extra_streams or []),
+         "level_text": text, "level_note": ADM_NOTE, "assumptions": assumptions or []}
+    if partial:
+        d["partial"] = partial
+    return d
+
 # properties not yet claimed (kept current as checks are added)
 NOT_APPLICABLE = [
     {"property_id": p, "reason": "check under construction in this session: model/theorems not yet committed (see DESIGN.md section 7 for the planned statement)"}
